@@ -109,6 +109,16 @@ def check(seed, n, thorough):
             if snap != exp or vmt.op_count != min(t, steps):
                 violations.append({"property": "C15", "stream": "isolation", "sig": "throttle", "case": {"text": text, "throttle": t},
                                    "what": "--throttle {} of a {}-instruction run: op_count {} / state differs from the unthrottled run after min(n, length) instructions".format(t, steps, vmt.op_count)})
+            # throttled runs sequenced on one machine: after another program, and repeated
+            vmr = V.VirtualMachine(progrun.make_settings(throttle=t))
+            run_on(vmr, other)
+            s2, _e = run_on(vmr, prog)
+            s3, _e = run_on(vmr, prog)
+            evals += 2
+            if s2 != snap or s3 != snap:
+                violations.append({"property": "C15", "stream": "isolation", "sig": "throttle-seq",
+                                   "case": {"text": text, "before": other_text, "throttle": t},
+                                   "what": "--throttle {}: a run on a machine that made throttled runs before differs from the same run on a fresh machine".format(t)})
             if not progrun.has_eval(prog):
                 pre = V.VirtualMachine(progrun.make_settings(throttle=t))
                 reqs.append("run {} {} {}".format(steps + 5, progrun.w_program(prog), w_vm(pre, as_input=True)))
@@ -146,3 +156,61 @@ def check(seed, n, thorough):
     return {"evaluations": evals, "violations": violations, "disagreements": disagreements, "programs": len(progs)}
 
 
+
+
+def replay_case(case):
+    """Re-run one recorded case against the real code; returns a description if it still fails."""
+    import hera.vm as V
+    if "text" not in case:
+        base = [(name, copy.deepcopy(vars(d))) for name, d in default_settings_objects()]
+        check(0, 3, False)
+        for (name, b), (_, d) in zip(base, default_settings_objects()):
+            if vars(d) != b:
+                return "shared default Settings() of {} changed during runs".format(name)
+        return None
+    prog, out, errs, exc = progrun.load(case["text"], progrun.make_settings())
+    if prog is None:
+        return None
+    other = None
+    if case.get("before"):
+        other = progrun.load(case["before"], progrun.make_settings())[0]
+    t = case.get("throttle")
+    mk = (lambda: progrun.make_settings(throttle=t)) if t is not None else progrun.make_settings
+    fresh, _ = run_on(V.VirtualMachine(mk()), prog)
+    vm = V.VirtualMachine(mk())
+    if other is not None:
+        run_on(vm, other)
+    a, _ = run_on(vm, prog)
+    b, _ = run_on(vm, prog)
+    if a != fresh:
+        return "run after another run differs from a run on a fresh machine"
+    if b != fresh:
+        return "repeated run differs"
+    extra = set(vars(vm)) - set(vars(V.VirtualMachine(mk())))
+    if extra:
+        return "machine attributes not covered by reset(): {}".format(sorted(extra))
+    if t is not None:
+        mon0 = progrun.monitor_run(prog, progrun.make_settings(), 100000)
+        steps = mon0["steps"]
+        vmt = V.VirtualMachine(progrun.make_settings(throttle=t))
+        snap, e = run_on(vmt, prog)
+        mon = progrun.monitor_run(prog, progrun.make_settings(throttle=t), t)
+        mon["vm"].op_count = min(t, steps)
+        exp = snapshot(mon["vm"], mon["stdout"], mon["diags"], mon["vm"].settings.warning_count)
+        if snap != exp or vmt.op_count != min(t, steps):
+            return "--throttle {} of a {}-instruction run differs from the unthrottled prefix".format(t, steps)
+    if case["text"].startswith("SET(R1, 5)\nRETURN"):
+        import hera.loader as L
+        counts = []
+        for _ in range(2):
+            with proto.Capture() as cap:
+                try:
+                    vmd = V.VirtualMachine()
+                    vmd.run(L.load_program(case["text"]))
+                except SystemExit:
+                    pass
+                cap.take()
+            counts.append((vmd.settings.warning_count, vmd.warning_count))
+        if counts[0] != counts[1]:
+            return "default-constructed machines differ: {}".format(counts)
+    return None
